@@ -1063,7 +1063,9 @@ hue [sq [sq 2]]   print hue
 repeat [sq 1] { print y }
 if {fact(3) > 5} { print "big" }
 println [round 2.6]
+repeat in "a" and "b" as L { print {10 * sq(2)} }
 ```
+(the last call runs with the name "b" — and the operand 10 — on the evaluation stack).
 The image is the one the loader makes of the whole script: a jump over the routines, the two
 routines, the main code. -/
 
@@ -1084,7 +1086,9 @@ def valMain : Block := Block.ofList [
   .repeat_ (.count (.call "sq" ["x"] (.cons (.lit (.int 1)) .nil))) (Block.ofList [.print (.var "y")]),
   .ite (.expr (.bin .gt (.call "fact" ["n"] (.cons (.lit (.int 3)) .nil)) (.lit (.int 5))))
     (Block.ofList [.print (.lit (.str "big"))]) none,
-  .println (some (.call "round" ["x"] (.cons (.lit (.num (13/5))) .nil)))]
+  .println (some (.call "round" ["x"] (.cons (.lit (.num (13/5))) .nil))),
+  .repeat_ (.iter [.light (.lit (.str "a")), .light (.lit (.str "b"))] "L" none)
+    (Block.ofList [.print (.expr (.bin .mul (.lit (.int 10)) (.call "sq" ["x"] (.cons (.lit (.int 2)) .nil))))])]
 
 def valWhole : Block :=
   .cons (.defRoutine "sq" ["x"] sqBody) (.cons (.defRoutine "fact" ["n"] factBody) valMain)
@@ -1116,7 +1120,15 @@ def valMainCode : List Instr := [
   .pop (.reg .result), .jump .ifFalse 4, .moveq (.str "big") (.reg .result), .out .register (.reg .result),
   .out .print (.lit .none), .ctx, .moveq (.num ((13 : Rat)/5)) (.reg .result), .param "x" (.reg .result),
   .jsr "round", .endCtx, .out .register (.reg .result), .out .print (.lit .none),
-  .out .printEnd (.lit .none)]
+  .out .printEnd (.lit .none), .loop, .moveq (.int 0) (.loopVar .counter),
+  .moveq (.str "b") (.reg .result), .push (.reg .result), .push (.loopVar .counter), .pushq (.int 1),
+  .op .add, .pop (.loopVar .counter), .moveq (.str "a") (.reg .result), .push (.reg .result),
+  .push (.loopVar .counter), .pushq (.int 1), .op .add, .pop (.loopVar .counter),
+  .push (.loopVar .counter), .pushq (.int 0), .op .gt, .pop (.reg .result), .jump .ifFalse 18,
+  .pop (.var "L"), .pushq (.int 10), .ctx, .moveq (.int 2) (.reg .result), .param "x" (.reg .result),
+  .jsr "sq", .endCtx, .push (.reg .result), .op .mul, .pop (.reg .result), .out .register (.reg .result),
+  .out .print (.lit .none), .push (.loopVar .counter), .pushq (.int 1), .op .sub, .pop (.loopVar .counter),
+  .jump .always (-21), .endLoop]
 
 def valImg : Image :=
   ⟨(([Instr.jump .always 30, .routine "sq"] : List Instr) ++ (sqCode ++ [Instr.end_ "sq"]) ++
@@ -1135,8 +1147,9 @@ theorem factBody_frag : FragBlock (fun _ => True) factBody := by
   decide
 
 theorem valMain_frag : FragBlock (fun _ => True) valMain := by
-  simp only [valMain, Block.ofList, FragBlock, FragStmt, RvC, ExprC, ArgsC, LoopHdrOK]
-  refine ⟨?_, ?_, ?_, ?_, ?_, ?_, ?_, ?_, ?_⟩
+  simp only [valMain, Block.ofList, FragBlock, FragStmt, RvC, ExprC, ArgsC, LoopHdrOK, OWithOK,
+    List.forall_mem_cons, ItemOK, List.not_mem_nil, false_imp_iff, implies_true]
+  refine ⟨?_, ?_, ?_, ?_, ?_, ?_, ?_, ?_, ?_, ?_⟩
   all_goals first
     | trivial
     | decide
@@ -1155,7 +1168,7 @@ set_option maxRecDepth 8000 in
 theorem valMain_code : Gen.genProgram valMain = some valMainCode := by
   simp [Gen.genProgram, valMain, Block.ofList, genBlock, genStmt, genRv, genExpr, genIf, genLoop, genCall,
     genParams, assembleLoop, patchBreaks_eq, patchRec, ins, counterTest, testOp, loopPost, counter, result, pushLit,
-    valMainCode]
+    withClause, withVar, iterItems, iterItem, incCounter, valMainCode]
 
 /-- the image is what the loader makes of the compiled whole script -/
 example : (Loader.load ([Instr.routine "sq"] ++ sqCode ++ [Instr.end_ "sq"] ++ [Instr.routine "fact"] ++
@@ -1214,7 +1227,7 @@ example : (Vm.finish (Vm.run valImg 3000 (Vm.init []))).trace =
 
 example : (Sem.run 400 valWhole []).2.vm.trace.reverse =
     [.out (.int 19), .out (.int 24), .out (.int 16), .out (.int 25), .out (.str "big"), .out (.int 3),
-     .newline] := by decide +kernel
+     .newline, .out (.int 40), .out (.int 40)] := by decide +kernel
 
 /-! ### why the fragment excludes reading `result` and `setReg unitMode`: on these scripts the
 source semantics and the machine (both of the MODEL) disagree
